@@ -14,6 +14,7 @@ import (
 	"errors"
 	"fmt"
 	"io"
+	"math"
 	"sync"
 	"time"
 
@@ -200,8 +201,8 @@ func (uw *unmarshalWork) Unmarshal() {
 			}
 			if row.Timestamp == NoTimestamp {
 				row.Timestamp = currentTs
-			} else {
-				row.Timestamp *= tsMultiplier
+			} else if row.Timestamp, err = scaleTimestamp(row.Timestamp, tsMultiplier); err != nil {
+				break
 			}
 		}
 	} else if tsMultiplier < 0 {
@@ -215,14 +216,23 @@ func (uw *unmarshalWork) Unmarshal() {
 			}
 			if row.Timestamp == NoTimestamp {
 				row.Timestamp = currentTs
-			} else {
-				row.Timestamp *= tsMultiplier
+			} else if row.Timestamp, err = scaleTimestamp(row.Timestamp, tsMultiplier); err != nil {
+				break
 			}
 		}
 	}
 
 	uw.Callback(uw.Db, rows, err)
 	putUnmarshalWork(uw)
+}
+
+// scaleTimestamp converts a timestamp given in the request precision to nanoseconds.
+// A product that does not fit into int64 is an error instead of a wrapped value.
+func scaleTimestamp(ts, multiplier int64) (int64, error) {
+	if multiplier > 1 && (ts > math.MaxInt64/multiplier || ts < math.MinInt64/multiplier) {
+		return ts, fmt.Errorf("timestamp %d is out of range for the given precision", ts)
+	}
+	return ts * multiplier, nil
 }
 
 func (uw *unmarshalWork) Cancel(reason string) {
